@@ -698,6 +698,29 @@ def request_serialisation(prog, rep):
 
 
 # ---------------------------------------------------------------------------
+def number_bases(prog, rep):
+    """W4: the protocol fixes the radix of its two numerals: Content-Length is decimal with nothing after it,
+    a chunk size is hexadecimal and may be followed by an extension."""
+    u = prog.unit(UNIT)
+    want = {"gotheaders": (10, 0), "callback_chunkedheader": (16, 1)}
+    for fn, (base, trailing) in want.items():
+        f = u.func(fn)
+        calls = []
+        for c in f.calls(("parsenum_unsigned", "parsenum_signed", "parsenum_float")):
+            b = _parsenum_branch(f, c)
+            if b is None or b == c.callee:
+                calls.append(c)
+        ok = len(calls) == 1 and calls[0].callee == "parsenum_unsigned"
+        got = None
+        if ok:
+            c = calls[0]
+            got = (norm(c.arg(4)), norm(c.arg(5)))
+            ok = got == (("c", base), ("c", trailing))
+        rep.check(ok, "W4-radix", "%s parses its length in base %d%s" % (fn, base, ", trailing characters allowed" if trailing else ", nothing may follow"), calls[0].where if calls else f.loc,
+                  "found base/trailing %s: a well-formed length such as 0012 (decimal) or 1a (hexadecimal) would be decoded as a different number" % (got,),
+                  function=fn, construct="radix")
+
+
 def framing_order(prog, rep):
     u = prog.unit(UNIT)
     g = u.func("gotheaders")
